@@ -122,6 +122,7 @@ void HttpServer::serve(Socket client)
 				if (response.hasHeader("Content-Range") && response.header("Content-Range").contains('*'))
 				{
 					response.setCode(416);
+					response.put(""); // no body; write() alone would send the whole file again
 					response.write();
 				}
 			}
